@@ -64,7 +64,7 @@ ADDED2 = {
     'C03': 'NaN in X / Y; record numbers i32::MAX / MIN; more than 1024 parts; a file without records followed by a stale record; the complete reader on every file',
     'C04': 'iteration after a random access at the last index; two finalizes in a row; 65537 records; read_nth_shape(usize::MAX); round 9: random access after k good steps and one typed step asking for another type',
     'C05': 'shapes of 17..40 parts; a finalize before the first write; the boxes of the geo-types constructors; round 10: every third file is written again through a destination whose one-shot failure hits the first operation of one write_shape (a shape with a vertex at +-1e305), the caller keeps writing and finalizes, and the header box must be that of the shapes an independent walk of the bytes finds',
-    'C06': 'identity of the conversions on shapes decoded from foreign files; shapefile::read_as(path) and Reader::from_path typed routes',
+    'C06': 'identity of the conversions on shapes decoded from foreign files; shapefile::read_as(path) and Reader::from_path typed routes; round 10: the printed names of the 14 kinds are pairwise distinct and each of the 196 MismatchShapeType messages contains the printed names of its two kinds',
     'C07': 'far-away indices for Reader::seek, read_nth_shape and nth on a used iterator; small negative content lengths with every type code; round 9: an unoptimised build (profile noopt) over a sample of the case space and every case of class (i), 3000 / 40 000 / 200 000 index entries that cannot address a record',
     'C08': 'seek(2) / seek(5); per-pair calls followed by the bulk call; the empty history by path; pairs accepted before a refused row must survive; round 9: seek on the index-less complete reader (refused), then read()',
     'C09': 'a refused write before a finalize; write_shapes of nothing; no I/O at an unwinding drop; 255 / 256 / 257 / 512 writes between finalizes; a writer of user-defined NullShape shapes; round 9: no write left behind the last flush once the writer is dropped',
